@@ -23,6 +23,7 @@ from batchie.models.sparse_combo import SparseDrugComboMCMCSample  # noqa: E402
 from batchie.models.sparse_combo_interaction import SparseDrugComboInteractionMCMCSample  # noqa: E402
 
 PROP = "C09"
+EPILOGUE_ITEMS = 2
 LEVEL = "model_checking"
 ENGINE = "E1-input-enumeration"
 TECHNIQUE = "bounded-exhaustive enumeration of (parameter pattern, screen) pairs on the real prediction code, loop reference + metamorphic oracles"
